@@ -295,7 +295,17 @@ fn coverage_oracle(r: &mut Report, seed: u64, k: u64, mutant: Mutant) {
     }
 }
 
-pub fn run(cfg: &Cfg) -> Report { run_with(cfg, Mutant::None) }
+/// `UEC_LIN_MUTANT=<name>` (testing the check itself, never set by `./check`): replace the real operators by a
+/// harness-side mutant so that the whole pipeline can be seen to fail; the report carries a SELFTEST note.
+fn env_mutant() -> Mutant {
+    match std::env::var("UEC_LIN_MUTANT").as_deref() {
+        Ok("CutExclusive") => Mutant::CutExclusive, Ok("NoSwapCuts") => Mutant::NoSwapCuts, Ok("UniformInverted") => Mutant::UniformInverted,
+        Ok("UniformFirstOnly") => Mutant::UniformFirstOnly, Ok("SegmentNoCheck") => Mutant::SegmentNoCheck, Ok("GeneSelfOnly") => Mutant::GeneSelfOnly,
+        _ => Mutant::None,
+    }
+}
+
+pub fn run(cfg: &Cfg) -> Report { run_with(cfg, env_mutant()) }
 
 pub fn run_with(cfg: &Cfg, mutant: Mutant) -> Report {
     let seed = cfg.seed;
@@ -303,7 +313,7 @@ pub fn run_with(cfg: &Cfg, mutant: Mutant) -> Report {
     // exhaustive exchange scope: (la, lb, pattern) triples; inner loops over indices
     let patterns: u64 = if cfg.thorough { 3 } else { 2 };
     let n_pairs = ((l_max + 1) * (l_max + 1)) as u64 * patterns;
-    let n_rand: u64 = if cfg.thorough { 400_000 } else { 40_000 };
+    let n_rand: u64 = if cfg.thorough { 1_500_000 } else { 40_000 };
     let mut rep = run_sharded(&cfg.driver, cfg.threads, n_pairs + n_rand, || Report::new("xo", RULE), |d, r, i| {
         if i < n_pairs {
             let pat = i % patterns;
